@@ -45,16 +45,19 @@ PROPS = {
     },
     'C06': {
         'lean': 'C06',
-        'corr': [_f('comp_download', 'corr')],
+        'corr': [_f('comp_fs', 'corr'), _f('comp_download', 'corr')],
         'oracles': [_x('C06'), _f('comp_download', 'oracle')],
-        'modelled': ['file-system event model of a download to a path (Fs model); the real directory is inspected at every scheduling point by the explorer'],
+        'modelled': ['download.DownloadFilenameOutputManager / IOWriteTask / IORenameFileTask / failure cleanups (Fs2 model: write tasks test done(), '
+                     'open the temporary file, write; final task; cleanups) — the real manager\'s runs are replayed on it',
+                     'the real directory is inspected at every scheduling point by the explorer',
+                     'legacy S3Transfer.download_file and the process pool: judged end to end (C19 for the process pool)'],
     },
     'C07': {
         'lean': 'C07',
-        'corr': [_f('comp_xfer', 'corr'), _f('comp_coord', 'corr')],
+        'corr': [_f('comp_xfer', 'corr'), _f('comp_coord', 'corr'), _f('comp_fs', 'corr')],
         'oracles': [_x('C07')],
         'modelled': ['futures.TransferCoordinator.cancel (Coord model)', 'Xfer model (cancel at any point)',
-                     'the four entry points in manager.py: explorer only'],
+                     'cancelled downloads to a path: file-system trace validation (Fs2 model)', 'the four entry points in manager.py: explorer only'],
     },
     'C08': {
         'lean': 'C08',
